@@ -468,3 +468,57 @@ def ar1(proj, rep, modules=None):
                 rep.ok('AR1', fi.qual, f'`{ast.unparse(c)[:60]}`: roles {[(p[2], p[0]) for p in pairs]} in order', m, c)
     rep.count('AR1.call_sites', n)
     return n
+
+
+# ------------------------------------------------------------------------------------------------ AL1
+RULE_AL1 = ('AL1: a list (or array) that is modified in place inside a loop body (`t[i] = v`, append, +=) is created inside that loop body; binding it '
+            'by plain assignment to an object built OUTSIDE the loop (`t = template`) shares one object across iterations, so the modifications of '
+            'earlier iterations leak into later ones.')
+
+
+def al1(proj, rep, modules):
+    rep.rule('AL1', RULE_AL1)
+    n = 0
+    for mq in modules:
+        m = proj.mod(mq)
+        rep.touch(m)
+        for fi in [f for f in proj.funcs.values() if f.module is m]:
+            for lp in [x for x in ast.walk(fi.node) if isinstance(x, (ast.For, ast.While))]:
+                body_nodes = [y for s in lp.body for y in ast.walk(s)]
+                inner = {}
+                for s in lp.body:
+                    if isinstance(s, ast.Assign) and isinstance(s.targets[0], ast.Name):
+                        inner.setdefault(s.targets[0].id, []).append(s)
+                for name, defs in inner.items():
+                    # mutated in place in this loop body?
+                    mut = None
+                    for y in body_nodes:
+                        if isinstance(y, ast.Assign) and isinstance(y.targets[0], ast.Subscript) and isinstance(y.targets[0].value, ast.Name) and y.targets[0].value.id == name:
+                            mut = y
+                        elif isinstance(y, ast.Call) and isinstance(y.func, ast.Attribute) and y.func.attr in ('append', 'extend', 'insert') \
+                                and isinstance(y.func.value, ast.Name) and y.func.value.id == name:
+                            mut = y
+                    if mut is None:
+                        continue
+                    d = defs[0]
+                    if d.lineno > getattr(mut, 'lineno', 0):
+                        continue
+                    v = d.value
+                    if isinstance(v, (ast.List, ast.ListComp, ast.Dict, ast.Set)) or (isinstance(v, ast.BinOp) and isinstance(v.op, ast.Mult) and isinstance(v.left, ast.List)) \
+                            or (isinstance(v, ast.Call) and not (isinstance(v.func, ast.Name) and False)):
+                        if isinstance(v, ast.Call) and not ast.unparse(v.func).split('.')[-1] in ('list', 'zeros', 'zeros_like', 'ones', 'empty', 'copy', 'array', 'eye', 'tile', 'deepcopy', 'dict'):
+                            continue
+                        n += 1
+                        rep.ok('AL1', fi.qual, f'`{name}` is rebuilt in every iteration before it is modified', m, d)
+                    elif isinstance(v, ast.Name):
+                        # alias of an object created outside the loop?
+                        outside = [s for s in ast.walk(fi.node) if isinstance(s, ast.Assign) and isinstance(s.targets[0], ast.Name) and s.targets[0].id == v.id
+                                   and not any(s is y for y in body_nodes)]
+                        built = [s for s in outside if isinstance(s.value, (ast.List, ast.ListComp)) or (isinstance(s.value, ast.BinOp) and isinstance(s.value.op, ast.Mult)
+                                 and isinstance(s.value.left, ast.List)) or (isinstance(s.value, ast.Call) and ast.unparse(s.value.func).split('.')[-1] in ('zeros', 'ones', 'eye', 'list'))]
+                        if built and v.id not in inner:
+                            n += 1
+                            rep.violation('AL1', fi.qual, f'`{ast.unparse(d)}` aliases `{v.id}`, built once outside the loop (`{ast.unparse(built[0])[:50]}`), and '
+                                          f'`{ast.unparse(mut)[:50]}` then modifies it in place: entries written in earlier iterations are still there in later ones', m, d)
+    rep.count('AL1.loop_local_containers', n)
+    return n
